@@ -180,9 +180,11 @@ class Server(base_server.BaseServer):
                 if sid in self.sockets:  # pragma: no cover
                     del self.sockets[sid]
         else:
-            for client in self.sockets.copy().values():
+            for sid, client in self.sockets.copy().items():
                 client.close(reason=self.reason.SERVER_DISCONNECT)
-            self.sockets = {}
+                # only forget the clients that were closed, others may have
+                # connected in the meantime
+                self.sockets.pop(sid, None)
 
     def handle_request(self, environ, start_response):
         """Handle an HTTP request from the client.
